@@ -238,6 +238,10 @@ def run_one(exe, d, listo, data, scratch, tag, stdin=False, extra_files=None, ti
 
 
 def ev_run(label, d, listo, data, o):
+    if len(o.out) > 8 * 1024 * 1024:
+        # more output than any input here can legitimately produce (the run was stopped by the output limit): keep a sample only
+        return dict(e="run", label=label, dialect=d, listo=listo, inp=list(data), rc=o.rc if o.rc is not None else -9,
+                    out=list(o.out[:2048]), errempty=0 if o.err.strip() else 1, clean=0)
     return dict(e="run", label=label, dialect=d, listo=listo, inp=list(data), rc=o.rc if o.rc is not None else -9,
                 out=list(o.out), errempty=0 if o.err.strip() else 1, clean=1 if o.ok_alphabet((0, 1)) else 0)
 
